@@ -136,7 +136,20 @@ func drawSuite(t *rapid.T) suiteSpec {
 	case 0:
 		return suiteSpec{Via: "registered", Name: rapid.SampledFrom(registeredNames).Draw(t, "regName")}
 	case 1:
-		return suiteSpec{Via: "parsed", Name: grammarSuite(t)}
+		name := grammarSuite(t)
+		if rapid.Bool().Draw(t, "caseVariant") {
+			// another spelling of the same suite (the parser folds case): the message must start with the
+			// string AS GIVEN. Only letters after "OCRA-1:" are varied (the version is matched exactly).
+			b := []byte(name)
+			mask := rapid.Uint64().Draw(t, "caseMask")
+			for i := 7; i < len(b); i++ {
+				if b[i] >= 'A' && b[i] <= 'Z' && (mask>>(uint(i)%64))&1 == 1 {
+					b[i] += 32
+				}
+			}
+			name = string(b)
+		}
+		return suiteSpec{Via: "parsed", Name: name}
 	default:
 		return suiteSpec{Via: rapid.SampledFrom([]string{"config", "rawsuite", "newsuite"}).Draw(t, "via"), Cfg: drawUsableCfg(t)}
 	}
